@@ -7,7 +7,7 @@ from . import gen, putcheck, snap, spec, trashgen, world
 
 def make(rng, index, n_entries=None, volumes=None, names=None, dates=None,
          kinds=None, home_own=None, top_sticky=True, with_top=None,
-         xdg=None, uid=None, trash_volumes_env=None):
+         xdg=None, uid=None, trash_volumes_env=None, tz=False):
     """returns (L, trashes, entries).
     trashes: list of dicts {rel, volume, home, kind}"""
     if volumes is None:
@@ -19,6 +19,10 @@ def make(rng, index, n_entries=None, volumes=None, names=None, dates=None,
                         rng.choice(['unset', 'unset', 'set']),
                         top_states=top_states, alt_states=alt_states,
                         uid=uid, trash_volumes_env=trash_volumes_env)
+    if tz is False:
+        tz = trashgen.pick_tz(rng)
+    if tz:
+        L.env['TZ'] = tz
     trashes = []
     ht = L.home_trash()
     hv = 'home' if 'home' in L.mounts else ''
@@ -60,7 +64,7 @@ def make(rng, index, n_entries=None, volumes=None, names=None, dates=None,
         base = (L.home if t['home'] else t['volume'])
         locdir = '/'.join(x for x in (base, sub) if x)
         loc = (locdir + '/' + nm) if locdir else nm
-        date = dates[i % len(dates)] if dates else trashgen.rand_date(rng)
+        date = dates[i % len(dates)] if dates else trashgen.rand_date(rng, tz=tz)
         kind = rng.choice(kinds or trashgen.PAYLOAD_KINDS)
         tname = 'n%d' % i if rng.random() < 0.4 else \
             (nm if len(nm.encode('utf-8', 'surrogateescape')) < 200 and
